@@ -46,8 +46,10 @@ impl<'r, 'c: 'r> Iterator for WithPositions<'r, 'c> {
                 Feature::HardClip { .. } => (0, 0),
             };
 
+            // The reader validates that features are ordered and do not overlap, i.e., this
+            // only saturates for records that are not read from a slice.
             let feature_position = usize::from(feature.position());
-            let match_len = feature_position - usize::from(self.read_position);
+            let match_len = feature_position.saturating_sub(usize::from(self.read_position));
 
             self.reference_position = self
                 .reference_position
